@@ -66,6 +66,9 @@ mod measurement;
 mod sequence_id;
 mod slave;
 pub(crate) mod state;
+#[cfg(all(statime_verif, feature = "std"))]
+#[allow(missing_docs)]
+pub mod verif;
 
 /// A single port of the PTP instance
 ///
